@@ -94,6 +94,15 @@ func auditFamilies(quick bool, N int) []vexplore.Scenario {
 			add(history{Format: "pbf", Procs: 2, HeaderAt: -1, Stop: stop, Post: "SECSE", Damaged: true, FaultAt: at}, d1)
 		}
 	}
+	// ... the input ends inside the header block / the first / a later data block: the error
+	// of the first attempt stays, whatever is called afterwards
+	for _, at := range []int{-1, 1, 3} {
+		for _, stop := range pick([]int{stopClose, stopCancel}, own) {
+			for _, p := range []int{1, 2} {
+				add(history{Format: "pbf", Procs: p, HeaderAt: -1, Stop: stop, Post: "SEHESECSE", Damaged: true, Cut: true, FaultAt: at}, d1)
+			}
+		}
+	}
 	for _, at := range []int{-1, 0} {
 		for _, stop := range own {
 			add(history{Format: "xml", Stop: stop, Post: "SECSE", IOErr: true, FaultAt: at}, 2)
